@@ -42,6 +42,7 @@ def run_obligations(spec, prog, prop):
         if ob.id.startswith("S"):
             continue
         ctx.cur = ob
+        undecided = False  # as in report.run: an obligation that cannot be analysed to the end gives no verdict at all
         try:
             ob.fn(ctx)
             if ob.instances < ob.floor and not ob.findings:
@@ -49,11 +50,13 @@ def run_obligations(spec, prog, prop):
                 msgs.append(f"{ob.id}: matched {ob.instances} < floor {ob.floor}")
         except (AnchorMissing, Unsupported) as e:
             nu += 1
+            undecided = True
             msgs.append(f"{ob.id}: {type(e).__name__}: {str(e)[:100]}")
         except Exception as e:  # noqa
             nu += 1
+            undecided = True
             msgs.append(f"{ob.id}: crash {type(e).__name__}: {str(e)[:100]}")
-        fresh = [f for f in ob.findings if f.key(prop) not in known]
+        fresh = [] if undecided else [f for f in ob.findings if f.key(prop) not in known]
         nf += len(fresh)
         for f in fresh[:2]:
             msgs.append(f"{ob.id}: {f.function}: {f.message[:110]}")
